@@ -41,7 +41,7 @@ def describe(tier):
     b = BOUNDS[tier]
     return dict(
         rule='E2: keys %s; numbers %s x suffixes %s; colors: all 16 one-digit, 256 two-digit, 4096 three-digit forms, six-digit forms '
-             'with every channel in %s (1000) plus every channel value 00..ff in each position (768), lower and upper case, alpha in %s; '
+             'with every channel in %s (1000) plus every channel value 00..ff in each position (768), lower and upper case, alpha in %s (thorough: also every 6-digit color over 16 channel values, 4096 x 3 alphas, and all value pairs in every syntax); '
              'value sequences of <= %d values (colors from a %d-element representative subset when combined), both serialisations of the '
              'optional separator, with and without `!`; syntaxes %s; option sets with <= %d deviations over %s. '
              'Transition = one more value / one option toggle.' % (
@@ -276,6 +276,13 @@ def gen_cases(name, tier):
     if name == 'colors':
         for col in all_colors(b['alphas'], b['six']):
             yield ('c', 'color', False, (col,), False, False)
+    elif name == 'colors6':
+        ch = ['00', '01', '0f', '10', '11', '1f', '7f', '80', '88', '99', 'a0', 'aa', 'bb', 'f0', 'fe', 'ff']
+        for a in ('', '.5', '.75'):
+            for r, g, bb in itertools.product(ch, repeat=3):
+                yield ('c', 'color', False, (color(r + g + bb, a),), False, False)
+                if a == '':
+                    yield ('bd', 'border', False, (color((r + g + bb).upper(), a), ('n', '1', '1', False, '')), False, False)
     elif name == 'singles':
         for key, prop, ul in KEYS:
             for v in nums + REP_COLORS[:b['pair_colors']]:
@@ -314,9 +321,13 @@ NSH = 16
 def shards(tier):
     b = BOUNDS[tier]
     out = []
-    for name in ('colors', 'singles', 'pairs') + (('triples',) if b['seq'] >= 3 else ()):
+    for name in ('colors', 'singles', 'pairs') + (('triples', 'colors6') if b['seq'] >= 3 else ()):
         for k in range(NSH):
             out.append(dict(gen=name, syntax='css', opts={}, k=k, of=NSH))
+    if b['seq'] >= 3:
+        for syn in list(SYNTAX_FMT)[1:]:
+            for k in range(4):
+                out.append(dict(gen='pairs', syntax=syn, opts={}, k=k, of=4))
     for syn in list(SYNTAX_FMT)[1:]:
         for k in range(2):
             out.append(dict(gen='config', syntax=syn, opts={}, k=k, of=2))
